@@ -96,6 +96,24 @@ func allowedClass(c string) bool {
 	return c == "eof" || c == "ueof" || c == "corrupt" || c == "deprecated"
 }
 
+// failSeeker is a ReadSeeker whose Read fails from the (okCalls+1)-th call on.
+type failSeeker struct {
+	rd      *bytes.Reader
+	okCalls int
+	tag     int
+	failed  bool
+}
+
+func (f *failSeeker) Read(b []byte) (int, error) {
+	if f.okCalls <= 0 {
+		f.failed = true
+		return 0, injected(f.tag)
+	}
+	f.okCalls--
+	return f.rd.Read(b)
+}
+func (f *failSeeker) Seek(off int64, wh int) (int64, error) { return f.rd.Seek(off, wh) }
+
 func execLife(o *Out, id, line string) {
 	kind, kv := parseLine(line)
 	switch kind {
@@ -110,7 +128,11 @@ func execLife(o *Out, id, line string) {
 		srcKind := kv["src"]
 		cur := 0
 		data := unhx(streams[0])
-		mk := func(d []byte) io.Reader { return mkSource(srcKind, d, fail, 9, nil, []int{3, 1, 5}) }
+		etag := 9
+		if kv["etag"] != "" {
+			etag, _ = strconv.Atoi(kv["etag"])
+		}
+		mk := func(d []byte) io.Reader { return mkSource(srcKind, d, fail, etag, nil, []int{3, 1, 5}) }
 		var rd anyReader
 		var err error
 		_, p := catch(func() { rd, err = newReaderOf(typ, mk(data), data) })
@@ -166,9 +188,11 @@ func execLife(o *Out, id, line string) {
 					sticky, stickyErr = true, e
 					c := errClass(e)
 					if ie, isInj := e.(*injErr); isInj {
-						if ie.tag != 9 {
+						if ie.tag != etag {
 							o.Violate("C09", "injected error came back with another identity", "verbatim", line)
 						}
+					} else if etag >= 100 && e == injected(etag) {
+						// the source's own error, unchanged
 					} else if strings.HasPrefix(c, "other") || !allowedClass(c) {
 						o.Violate("C09", fmt.Sprintf("%s.Read failed with class %s (%v)", typ, c, e), "class", line)
 					}
@@ -251,6 +275,48 @@ func execLife(o *Out, id, line string) {
 		}
 		o.Count("lr-" + typ)
 		o.Emit(id, line, "", strings.Join(trace, "|"), typ+kv["ops"]+kv["streams"][:min(len(kv["streams"]), 40)]+kv["fail"])
+	case "lxs": // xflate.Reader over a ReadSeeker whose Read starts failing after a number of calls
+		data := unhx(kv["stream"])
+		okCalls, _ := strconv.Atoi(kv["okcalls"])
+		etag, _ := strconv.Atoi(kv["etag"])
+		src := &failSeeker{rd: bytes.NewReader(data), okCalls: okCalls, tag: etag}
+		var xr *xflate.Reader
+		var err error
+		if _, p := catch(func() { xr, err = xflate.NewReader(src, nil) }); p != nil {
+			o.Violate("C18", fmt.Sprintf("xflate NewReader panicked: %v", p), "panic-new", line)
+			return
+		}
+		if err != nil {
+			if src.failed && !isInjected(err, etag) {
+				o.Violate("C09", fmt.Sprintf("xflate.NewReader turned the source's error into %v", err), "verbatim", line)
+			}
+			o.Count("lxs-open-failed")
+			o.Emit(id, line, "", "open="+errClass(err), "lxs-open"+kv["okcalls"]+kv["etag"])
+			return
+		}
+		buf := make([]byte, 37)
+		var e error
+		for i := 0; i < 100000 && e == nil; i++ {
+			_, e = xr.Read(buf)
+		}
+		n2, e2 := xr.Read(buf)
+		c1 := xr.Close()
+		c2 := xr.Close()
+		if e != io.EOF {
+			if src.failed && !isInjected(e, etag) {
+				o.Violate("C09", fmt.Sprintf("xflate.Reader turned the source's error into %v", e), "verbatim", line)
+			}
+			if n2 != 0 || e2 != e {
+				o.Violate("C09", fmt.Sprintf("xflate: after Read returned %v a later Read returned (%d, %v)", e, n2, e2), "not-sticky", line)
+			}
+			if c1 == nil || c2 == nil {
+				o.Violate("C09", fmt.Sprintf("xflate: Close returned %v then %v after Read had returned %v", c1, c2, e), "close-result", line)
+			}
+		} else if c1 != nil || c2 != nil {
+			o.Violate("C09", fmt.Sprintf("xflate: Close returned %v then %v after io.EOF", c1, c2), "close-result", line)
+		}
+		o.Count("lxs")
+		o.Emit(id, line, "", fmt.Sprintf("R=%s|C=%s|C=%s", errClass(e), errClass(c1), errClass(c2)), "lxs"+kv["okcalls"]+kv["etag"]+errClass(e))
 	case "trunc": // every proper prefix of a valid stream fails with exactly io.ErrUnexpectedEOF
 		typ := kv["t"]
 		data := unhx(kv["stream"])
@@ -264,7 +330,7 @@ func execLife(o *Out, id, line string) {
 			if len(data) > 400 && k%7 != 0 && k > 40 && k < len(data)-40 {
 				continue
 			}
-			rd, _ := newReaderOf(typ, mkSource(src, data[:k], -1, 0, nil, []int{2, 9}), data[:k])
+			rd, _ := newReaderOf(typ, mkSource(src, data[:k], -1, 9, nil, []int{2, 9}), data[:k])
 			if rd == nil {
 				continue
 			}
@@ -569,6 +635,20 @@ func genLife(r *Rand, tier string, emit func(string)) {
 				}
 				src := []string{"adv", "byte", "readonly", "bufio16"}[r.Intn(4)]
 				emit(fmt.Sprintf("lr t=%s src=%s fail=%d streams=%s plains=%s ops=R:50|R:100000|R:100000|R:1|R:0|C|R:1|C", t, src, k, p.streams[0], p.plains[0]))
+				if r.Intn(4) == 0 {
+					// the source fails with an error this package also uses as its closed marker
+					emit(fmt.Sprintf("lr t=%s src=%s fail=%d etag=%d streams=%s plains=%s ops=R:100000|R:1|C|C", t, src, k, closedTag(t), p.streams[0], p.plains[0]))
+				}
+			}
+		}
+	}
+	// xflate.Reader over a ReadSeeker that starts failing after k Read calls: with the token error
+	// and with a Closed-coded error (what a closed dsnet handler underneath returns)
+	{
+		p := pools["xflate"]
+		for k := 0; k <= 14; k++ {
+			for _, tag := range []int{9, 100} {
+				emit(fmt.Sprintf("lxs okcalls=%d etag=%d stream=%s", k, tag, p.streams[k%len(p.streams)]))
 			}
 		}
 	}
@@ -604,7 +684,13 @@ func genLife(r *Rand, tier string, emit func(string)) {
 		}
 		sink := "-"
 		if r.Intn(2) == 0 {
-			sink = fmt.Sprintf("%d:%s:%d:%d", r.Intn(total/2+60), []string{"hard", "short"}[r.Intn(2)], r.Intn(2), 9)
+			tag := 9
+			if r.Intn(4) == 0 {
+				// a sink error the writer also uses as its closed marker; a failed Close is followed by another
+				tag = closedTag(typ)
+				tail = append(tail, "C")
+			}
+			sink = fmt.Sprintf("%d:%s:%d:%d", r.Intn(total/2+60), []string{"hard", "short"}[r.Intn(2)], r.Intn(2), tag)
 		}
 		emit(fmt.Sprintf("lw t=%s level=%d sink=%s ops=%s", typ, lvl, sink, strings.Join(append(ops, tail...), "|")))
 	}
